@@ -33,7 +33,8 @@ RULE = ("random histories (<= 10 steps) over {area / length / box / membership /
 ASSUMPTIONS = [
     "floats are compared to 1e-9 relative (a cached translation-invariant quantity may differ in the last bits from "
     "its recomputation), booleans and kinds exactly, regions through the oracle (same_region)",
-    "histories use positive scale factors only (the domain C09 states)",
+    "histories use positive scale factors, plus exact mirrors (factors -1/1) of simple shapes only: a mirrored composite "
+    "shape leaves the canonical form and no property covers it",
     "the rebuilt twin is constructed from the exact snapshot with the raw coordinate objects, through the public "
     "constructors, not through the library's deepcopy",
 ]
@@ -209,6 +210,10 @@ def random_step(rng, rational, simple):
             t = s if rng.random() < 0.6 else rng.choice([2, 3, Fr(1, 2)])
             return {"op": "scale", "sx": str(s), "sy": str(t)}
         s = rng.uniform(0.3, 3)
+        if simple and rng.random() < 0.25:
+            # exact mirror of a simple shape: the orientation (hence the denoted region) flips;
+            # live and rebuilt objects must still agree
+            return {"op": "scale", "sx": rng.choice(["-1", "1", "-1.0"]), "sy": rng.choice(["1", "-1"])}
         return {"op": "scale", "sx": repr(s), "sy": repr(s if rng.random() < 0.6 else rng.uniform(0.3, 3))}
     if r < 0.48:
         return {"op": "rotate", "angle": repr(rng.uniform(-7, 7)), "degrees": False} if rng.random() < 0.6 else \
